@@ -281,7 +281,7 @@ MUTANTS += [
     M("c09-truncate-512", ["C09"], CONN, '	if _, err := conn.io.WriteString(line + "\\r\\n"); err != nil {', """	if len(line) > 510 {
 		line = line[:510]
 	}
-	if _, err := conn.io.WriteString(line + "\\r\\n"); err != nil {""", expect="control", note="no C09 line exceeds 510 bytes: payload <= 400"),
+	if _, err := conn.io.WriteString(line + "\\r\\n"); err != nil {""", note="Raw lines longer than 510 bytes are truncated"),
     M("c09-two-send-goroutines", ["C09"], CONN, "		go conn.send(ctx)\n", "		go conn.send(ctx)\n		conn.wg.Add(1)\n		go conn.send(ctx)\n"),
     # ---- C18
     M("c18-swap-ports", ["C18"], CONN, """			conn.cfg.Server = net.JoinHostPort(conn.cfg.Server, "6697")
@@ -462,7 +462,7 @@ MUTANTS += [
     M("c13-stnick-swapped", ["C13"], SH, "	conn.st.ReNick(line.Nick, line.Args[0])", "	conn.st.ReNick(line.Args[0], line.Nick)"),
     M("c13-324-args0", ["C13"], SH, "		conn.st.ChannelModes(line.Args[1], line.Args[2], line.Args[3:]...)", "		conn.st.ChannelModes(line.Args[1], line.Args[2], line.Args[4:]...)"),
     M("c13-topic-on-332-only", ["C13"], SH, "		conn.st.Topic(line.Args[0], line.Args[1])", "		conn.st.Topic(line.Args[0], line.Args[len(line.Args)-1][:0]+line.Args[1])", expect="control"),
-    M("c13-352-name-with-hops", ["C13"], SH, "	conn.st.NickInfo(nk.Nick, line.Args[2], line.Args[3], a[1])", "	conn.st.NickInfo(nk.Nick, line.Args[2], line.Args[3], line.Args[len(line.Args)-1])"),
+    M("c13-352-name-with-hops", ["C13"], SH, "	conn.st.NickInfo(nk.Nick, line.Args[2], line.Args[3], a[1])", "	conn.st.NickInfo(nk.Nick, line.Args[2], line.Args[3], a[0]+\" \"+a[1])"),
     M("c13-mode-args-shifted", ["C13"], SH, "		conn.st.ChannelModes(line.Args[0], line.Args[1], line.Args[2:]...)", "		conn.st.ChannelModes(line.Args[0], line.Args[1], line.Args[1:]...)"),
     M("c05-swap-int-fg", ["C05"], DISP, """	conn.intHandlers.dispatch(conn, line)
 	go conn.bgHandlers.dispatch(conn, line)
